@@ -231,7 +231,7 @@ def is_dynamic_default(text, base):
     if " div " in t or " mod " in t:
         return True
     if "[" in t:
-        return None  # a predicate on its own (no call, reference or operator): boundary class
+        return True  # documented: brackets make the cell an expression
     if "-" in t:
         return None  # hyphen: number sign, date separator, name character or operator -- boundary class
     if any(ch in t for ch in "()[]{}"):
